@@ -8,9 +8,10 @@ stand-in that, after EVERY call of process(node) (normal return or exception), i
               error (with its __cause__ / __context__ / __traceback__ frames, as the real engine keeps first_node_error until the
               run ends) -- following gc.get_referents (functions: closure cells and defaults only; modules / types / code are
               not entered)
-              (References that exist only inside unreachable garbage -- a frame <-> traceback cycle waiting for the cycle
-              collector -- are NOT seen by the walk; reference-count liveness cannot be used under CrossHair, whose tracer keeps
-              frames of raised exceptions alive.  Stated as outside the claim.)
+  garbage     after the walk, the cycle collector is run with DEBUG_SAVEALL: frames of uberjob's own functions found in the
+              collected garbage (a frame <-> traceback <-> exception cycle that only the cycle collector frees) must not pin a
+              result that is no longer allowed to be alive either.  (Plain reference-count liveness cannot be used under
+              CrossHair, whose tracer keeps frames of raised exceptions alive.)
 
 Oracle (declarative, on the physical graph the engine was given): the result of call p may be alive after a step iff
 p is (part of) the requested output -- i.e. it is, or is contained in, the value the output call will return -- or some
@@ -212,6 +213,34 @@ def inspect_step(graph, fn, done, first_error, output_node, frames):
             if not allowed:
                 ST.problems.append(("kept", k, "after step %d" % len(ST.order), holders(obj)))
         del live, roots
+        # (b) unreachable garbage: frames of uberjob's own functions that are only waiting for the cycle collector (a frame <->
+        #     traceback <-> exception cycle) still pin whatever their locals reference.  Collect with DEBUG_SAVEALL, look at what
+        #     the garbage uberjob frames reach, then let it go.
+        old_flags = gc.get_debug()
+        gc.set_debug(gc.DEBUG_SAVEALL)
+        try:
+            gc.collect()
+            garbage = list(gc.garbage)
+            del gc.garbage[:]
+        finally:
+            gc.set_debug(old_flags)
+        gframes = [o for o in garbage if isinstance(o, types.FrameType) and o.f_code.co_filename.startswith(SRC)]
+        if gframes:
+            pinned = reachable_results([v for fr in gframes for v in fr.f_locals.values()])
+            # (the collector has already cleared the weak references to unreachable results: identify them by their index)
+            for obj in list(pinned.values()):
+                k = obj.k
+                node = idx_of.get(k)
+                if node is None:
+                    continue
+                cons = arg_consumers(graph, node)
+                if in_output(graph, node, output_node, memo) or any(c not in done for c in cons) or any(c in ST.failed_py for c in cons):
+                    continue
+                ST.problems.append(("kept-by-garbage-cycle", k, "after step %d" % len(ST.order),
+                                    sorted({fr.f_code.co_name for fr in gframes})))
+            del obj
+            del pinned
+        del garbage, gframes
     ST.steps += 1
 
 
@@ -340,6 +369,8 @@ def c16_release(e01: bool, e02: bool, e12: bool, e03: bool, e13: bool, e23: bool
     kw = {"retry": RETRY} if RETRY > 1 else {}
     raised = False
     was_enabled = gc.isenabled()
+    with W.nxpatch_notrace():
+        gc.collect()  # garbage of earlier executions (a failed run leaves an exception <-> frame cycle) must not be attributed to this one
     gc.disable()
     try:
         try:
